@@ -48,6 +48,20 @@ func (w poolW[T]) AllocsCyclePair(runs int) float64 {
 	})
 }
 
+// AllocsCycleMany measures a cycle in which six buffers are held together and then all put back.
+func (w poolW[T]) AllocsCycleMany(runs int) float64 {
+	var held [6]*signal.Buffer[T]
+	return testing.AllocsPerRun(runs, func() {
+		for i := range held {
+			held[i] = w.p.Get()
+		}
+		held[0].AppendSample(1)
+		for i := range held {
+			w.p.Put(held[i])
+		}
+	})
+}
+
 // AllocsCycleByValue measures the same cycle through a copy of the allocator value that is passed
 // to a function by value on every run (PoolAlloc returns a value; holding and passing it by value is
 // ordinary use).
